@@ -912,6 +912,7 @@ package ggql
 //@   requires{C09} !skippedSel(box(field), vars)
 //@   ensures[errs-fresh]{C06} errsFresh(ea)
 //@   ensures[key-path]{C06} depth < MaxResolveDepth ==> keyPaths(ea, fkey(field))
+//@   ensures[key-set]{C07} len(ea) == 0 ==> has(result, fkey(field))
 //@   ensures[key-frame]{C01} forall k string :: k != fkey(field) ==> (has(result, k) <==> old(has(result, k))) && result[k] == old(result[k])
 //@   ensures[typename]{C01} old(field.ConType) != nil && field.Name == "__typename" ==> has(result, fkey(field)) && result[fkey(field)] == box(t.Name()) && len(ea) == 0 && #res == old(#res)
 //@   ensures[undefined-field]{C10} old(field.ConType) != nil && !isMetaName(field.Name) && old(fdOf(t, field.Name)) == nil ==> len(ea) > 0 && #res == old(#res) && (has(result, fkey(field)) <==> old(has(result, fkey(field)))) && result[fkey(field)] == old(result[fkey(field)])
@@ -951,6 +952,8 @@ package ggql
 //@   requires[unlocked]{C20} !held(root.subLock)
 //@   ensures[unknown-name]{C01} opName != "" && old(exe.Ops[opName]) == nil ==> err != nil && result == nil && #res == old(#res)
 //@   ensures[ambiguous]{C01} opName == "" && old(exe.Ops[opName]) == nil && old(len(exe.Ops)) != 1 ==> err != nil && result == nil && #res == old(#res)
+//@   ensures[only-data]{C07} result != nil ==> fresh(result) && (forall k string {has(result, k)} :: has(result, k) ==> k == "data")
+//@   ensures[data-present]{C07} err == nil && result != nil ==> has(result, "data")
 //@   use dirsOfField(addrof(field))
 //@   use skippedUnfold(addrof(field).Dirs, opVars, 0)
 //@   loop 0: invariant[bounds] 0 <= rangeindex+1 && rangeindex+1 <= len(op.Variables)
